@@ -37,7 +37,7 @@ CONSTANTS Gpus,      \* all GPU indices (domain of the per-GPU functions)
           MaxReq,    \* MC: number of requests issued
           MaxDrain   \* MC: number of drain rounds
 
-VARIABLES cfg,    \* [comps, span, il, nb]   constant during a run
+VARIABLES cfg,    \* [comps, ranges, il, nb]   constant during a run
           port,   \* [Gpus -> ten message queues]
           tab,    \* [Gpus -> [ins, outs]]  transactionsFromInside / transactionsFromOutside
           ctl,    \* [Gpus -> [draining, paused, src]]
@@ -48,8 +48,12 @@ vars == <<cfg, port, tab, ctl, env, used, h>>
 
 P(g, k, b) == [g |-> g, k |-> k, b |-> b]
 NoPort == P(0, "none", 0)
-Owner(a) == a \div cfg.span
-Bank(a) == (a \div cfg.il) % cfg.nb
+\* the GPU whose memory range contains address a (-1: nobody's)
+Owner(a) == LET S == {r \in cfg.ranges : r.lo <= a /\ a < r.hi} IN
+            IF S = {} THEN -1 ELSE (CHOOSE r \in S : TRUE).g
+UniformRanges(span) == {[g |-> g, lo |-> g * span, hi |-> (g + 1) * span] : g \in Gpus}
+\* L2 bank of address a; cfg.nb = 0: the bank layout is not part of the configuration under test
+Bank(a) == IF cfg.nb = 0 THEN 0 ELSE (a \div cfg.il) % cfg.nb
 DataPort(g) == P(g, "dto", 0)
 L2Port(c, a) == P(c, "l2", Bank(a))
 
@@ -69,7 +73,7 @@ InitRest ==
   /\ env = [nreq |-> {}, nrsp |-> {}, l2 |-> {}, phase |-> [c \in Gpus |-> "run"], nDrain |-> 0]
   /\ used = {}
   /\ h = NoHist
-Init == cfg = [comps |-> Comps, span |-> Span, il |-> Ileave, nb |-> NBanks] /\ InitRest
+Init == cfg = [comps |-> Comps, ranges |-> UniformRanges(Span), il |-> Ileave, nb |-> NBanks] /\ InitRest
 
 Remove(s, i) == SubSeq(s, 1, i - 1) \o SubSeq(s, i + 1, Len(s))
 Idx(s, pred(_)) == CHOOSE i \in 1..Len(s) : pred(s[i])
@@ -387,7 +391,8 @@ ExactlyOnceRouting ==
 OwnerIsAddressRangeOwner ==
   /\ \A e \in h.fwd : e.dst = DataPort(Owner(e.p.a)) /\ e.src = P(e.c, "rqo", 0)
   /\ \A e \in h.l2 : e.root \in Roots => /\ e.c = Owner(h.orig[e.root].p.a)
-                                          /\ e.dst = L2Port(e.c, h.orig[e.root].p.a)
+                                          /\ e.dst.g = e.c /\ e.dst.k = "l2"
+                                          /\ (cfg.nb > 0 => e.dst = L2Port(e.c, h.orig[e.root].p.a))
                                           /\ e.src = P(e.c, "dti", 0)
 
 \* what arrives is what was sent: request payload on the way out, answer payload on the way back
